@@ -22,6 +22,17 @@ STATUS_OF = {"READY": "READIED", "START": "STARTED", "STOP": "STOPPED", "RUN": "
 
 
 def start_guards(ctx):
+    # the entry checks are predicates of the present moment: they remember nothing (a result cached per stamp is stale as soon
+    # as an action of the same tick changes what the first-frame conditions read)
+    ctx.rule("T4-fresh", "Framer.checkStart / Framer.checkEnter / Frame.checkEnter write no attribute (no cached verdict)")
+    for cn_, mn_ in (("Framer", "checkStart"), ("Framer", "checkEnter"), ("Frame", "checkEnter")):
+        pf_ = ctx.cls("framing", cn_).own_method(mn_)
+        ctx.use(pf_)
+        wr = [x for x in ast.walk(pf_) if isinstance(x, (ast.Attribute, ast.Subscript)) and isinstance(x.ctx, (ast.Store, ast.Del))
+              and src(x).startswith("self.")]
+        ctx.check(not wr, "T4-fresh", wr[0] if wr else pf_, "%s.%s keeps no state%s" % (cn_, mn_, (": " + src(wr[0])[:40]) if wr else ""),
+                  "ready followed by start in one tick (or two fiats of different masters) would reuse the earlier verdict although "
+                  "a share tested by the first-frame conditions changed in between: a start whose conditions fail reports success")
     """Framer.makeRunner START/READY: entering is dominated by a truthy checkStart(); a failing check leaves STOPPED and runs
     nothing (shared by C04 and C08)"""
     ctx.rule("T1-start", "makeRunner START/READY: enterAll/recur dominated by truthy checkStart(); false => STOPPED")
